@@ -122,11 +122,11 @@ theorem congr_rowsP (n : Nat) (l : List Tab.Op) (h : ∀ p, p ∈ l → ∀ j, j
 /-! ## 3. the gate steps of the compile loop -/
 
 /-- unitary-gate circuit operations whose step is `t ↦ (t.map f).norm` with `f` the row map of one API call -/
-def _root_.Graphiq.COp.isGate : COp → Bool
+def cIsGate : COp → Bool
   | .gate1 .. | .pdag .. | .cnot .. | .cz .. => true
   | _ => false
 
-theorem stepOp_gate (np n : Nat) (d : Det) (s : RunState) (op : COp) (hg : op.isGate = true) (hin : op.InRange np n) :
+theorem stepOp_gate (np n : Nat) (d : Det) (s : RunState) (op : COp) (hg : cIsGate op = true) (hin : cInRange np n op) :
     stepOp np n d s op = some { s with t := (s.t.map (rowsP (copPrims np op false))).norm } := by
   cases op with
   | gate1 g q =>
@@ -145,7 +145,7 @@ theorem stepOp_gate (np n : Nat) (d : Det) (s : RunState) (op : COp) (hg : op.is
 /-- an operation of the compile sequence that is a unitary gate and decodable -/
 def gateDec (ne np : Nat) (a : SOp) : Option Dec :=
   match decode ne np a with
-  | some d => if (toCOp a).isGate then some d else none
+  | some d => if cIsGate (toCOp a) then some d else none
   | none => none
 
 /-- **the compile step of the stabilizer backend on unitary-gate operations** (`none` on everything else) -/
@@ -161,7 +161,7 @@ theorem appT_undecodable (ne np : Nat) (a : SOp) (h : gateDec ne np a = none) (s
   unfold appT; rw [h]
 
 theorem gateDec_some {ne np : Nat} {a : SOp} {d : Dec} (h : gateDec ne np a = some d) :
-    decode ne np a = some d ∧ (toCOp a).isGate = true := by
+    decode ne np a = some d ∧ cIsGate (toCOp a) = true := by
   unfold gateDec at h
   split at h
   · next d' hd =>
@@ -285,11 +285,11 @@ theorem foldlM_eq_runSeq (ne np : Nat) (l : List SOp) (hl : ∀ a, a ∈ l → (
     exact ih (fun b hb => hl b (List.mem_cons_of_mem _ hb)) _
 
 /-- a gate step does not look at the measurement setting -/
-theorem stepOp_gate_det (np n : Nat) (d d' : Det) (s : RunState) (op : COp) (hg : op.isGate = true) :
+theorem stepOp_gate_det (np n : Nat) (d d' : Det) (s : RunState) (op : COp) (hg : cIsGate op = true) :
     stepOp np n d s op = stepOp np n d' s op := by
   cases op <;> first | rfl | cases hg
 
-theorem foldlM_gate_det (np n : Nat) (d : Det) (ops : List COp) (hg : ∀ op, op ∈ ops → op.isGate = true) (s : RunState) :
+theorem foldlM_gate_det (np n : Nat) (d : Det) (ops : List COp) (hg : ∀ op, op ∈ ops → cIsGate op = true) (s : RunState) :
     ops.foldlM (stepOp np n d) s = ops.foldlM (stepOp np n .zero) s := by
   induction ops generalizing s with
   | nil => rfl
@@ -337,10 +337,10 @@ theorem Rewrites.gateOnly {c c' : Wire.Circuit} (hgood : c.Good) (hg : GateOnly 
 
 /-- on a sane gate-only circuit every operation of a compile sequence is a decodable unitary gate -/
 theorem sops_gate_ok (c : Wire.Circuit) (hgood : c.Good) (har : ArityOk c) (hg : GateOnly c) (seq : List Nat) :
-    ∀ a, a ∈ c.sops seq → (gateDec c.ne c.np a).isSome = true ∧ (toCOp a).isGate = true := by
+    ∀ a, a ∈ c.sops seq → (gateDec c.ne c.np a).isSome = true ∧ cIsGate (toCOp a) = true := by
   intro a ha
   obtain ⟨d, hd⟩ := Option.isSome_iff_exists.mp (sops_ok c hgood har seq a ha).1
-  have hgate : (toCOp a).isGate = true := by
+  have hgate : cIsGate (toCOp a) = true := by
     simp only [Wire.Circuit.sops, List.mem_flatMap] at ha
     obtain ⟨n, _, hx⟩ := ha
     cases hop : c.node n with
